@@ -114,12 +114,14 @@ func init() {
 			in.blockOn(m, func() bool { return !m.locked }, "rwmutex.rlock")
 		}
 		m.readers++
+		in.traceOp("rwmutex.rlock")
 		in.hbAcquire(&m.vc)
 		return nil
 	}
 	stdIntrinsics["(*sync.RWMutex).RUnlock"] = func(in *Interp, c *frame, fn *ssa.Function, a []Value) Value {
 		m := in.mutexOf(a[0].(*Ptr))
 		in.visible("rwmutex.runlock")
+		in.traceOp("rwmutex.runlock")
 		in.hbRelease(&m.vc)
 		m.readers--
 		return nil
@@ -127,6 +129,7 @@ func init() {
 	stdIntrinsics["(*sync.WaitGroup).Add"] = func(in *Interp, c *frame, fn *ssa.Function, a []Value) Value {
 		w := in.wgOf(a[0].(*Ptr))
 		in.visible("wg.add")
+		in.traceOp("wg.add")
 		d := int(sext64(cu64(in, a[1]), 64))
 		in.hbRelease(&w.vc)
 		w.n += d
@@ -138,6 +141,7 @@ func init() {
 	stdIntrinsics["(*sync.WaitGroup).Done"] = func(in *Interp, c *frame, fn *ssa.Function, a []Value) Value {
 		w := in.wgOf(a[0].(*Ptr))
 		in.visible("wg.done")
+		in.traceOp("wg.done")
 		in.hbRelease(&w.vc)
 		w.n--
 		if w.n < 0 {
@@ -149,6 +153,7 @@ func init() {
 		w := in.wgOf(a[0].(*Ptr))
 		in.visible("wg.wait")
 		in.blockOn(w, func() bool { return w.n == 0 }, "wg.wait")
+		in.traceOp("wg.wait")
 		in.hbAcquire(&w.vc)
 		return nil
 	}
@@ -159,6 +164,7 @@ func init() {
 		body := &FuncV{name: "wg.Go", native: func(in *Interp, _ []Value) Value {
 			in.call(nil, token.NoPos, f, nil)
 			in.visible("wg.done")
+			in.traceOp("wg.done")
 			in.hbRelease(&w.vc)
 			w.n--
 			return nil
@@ -174,6 +180,7 @@ func init() {
 			in.onces[cell] = o
 		}
 		in.visible("once.do")
+		in.traceOp("once.do")
 		if o.done {
 			in.hbAcquire(&o.vc)
 			return nil
@@ -507,6 +514,7 @@ func (in *Interp) atomicCell(p *Ptr) *Cell {
 func (in *Interp) atomicLoad(p *Ptr) Value {
 	c := in.atomicCell(p)
 	in.visible("atomic.load")
+	in.traceOp("atomic.load")
 	in.hbAcquire(&c.atomicVC)
 	v := c.v
 	in.noteAtomicLoad(c)
@@ -516,6 +524,7 @@ func (in *Interp) atomicLoad(p *Ptr) Value {
 func (in *Interp) atomicStore(p *Ptr, v Value) {
 	c := in.atomicCell(p)
 	in.visible("atomic.store")
+	in.traceOp("atomic.store")
 	in.hbRelease(&c.atomicVC)
 	c.v = v
 	in.noteAtomicWrite(c)
@@ -525,6 +534,7 @@ func (in *Interp) atomicStore(p *Ptr, v Value) {
 func (in *Interp) atomicSwap(p *Ptr, v Value) Value {
 	c := in.atomicCell(p)
 	in.visible("atomic.swap")
+	in.traceOp("atomic.swap")
 	in.hbAcquire(&c.atomicVC)
 	in.hbRelease(&c.atomicVC)
 	old := c.v
@@ -537,6 +547,7 @@ func (in *Interp) atomicSwap(p *Ptr, v Value) Value {
 func (in *Interp) atomicCAS(p *Ptr, old, nw Value) Value {
 	c := in.atomicCell(p)
 	in.visible("atomic.cas")
+	in.traceOp("atomic.cas")
 	in.hbAcquire(&c.atomicVC)
 	eq := in.valueEq(c.v, old)
 	if in.branch(eq, "cas") {
@@ -552,6 +563,7 @@ func (in *Interp) atomicCAS(p *Ptr, old, nw Value) Value {
 func (in *Interp) atomicRMW(p *Ptr, f func(*Term) *Term, retNew bool) Value {
 	c := in.atomicCell(p)
 	in.visible("atomic.rmw")
+	in.traceOp("atomic.rmw")
 	in.hbAcquire(&c.atomicVC)
 	in.hbRelease(&c.atomicVC)
 	old := c.v.(*Term)
@@ -849,6 +861,8 @@ func iterPull(in *Interp, caller *frame, fn *ssa.Function, args []Value) Value {
 		if s.co == nil {
 			s.co = in.newThread("iter.Pull", body, nil)
 			s.co.pull = true
+			s.co.nsr = -1
+			in.nsrNext--
 			s.co.resumeTo = nil
 		}
 		s.co.pullConsumer = me
@@ -970,6 +984,7 @@ func registerRT() {
 	}
 	// vAtomic(f): runs f without scheduling points (a ghost observer taking an atomic snapshot)
 	rtIntrinsics["vAtomic"] = func(in *Interp, c *frame, fn *ssa.Function, a []Value) Value {
+		in.traceOp("vAtomic")
 		saved, savedRace := in.par, in.raceOn
 		in.par, in.raceOn = false, false
 		defer func() { in.par, in.raceOn = saved, savedRace }()
@@ -995,6 +1010,7 @@ func registerRT() {
 	}
 	rtIntrinsics["vYield"] = func(in *Interp, c *frame, fn *ssa.Function, a []Value) Value {
 		in.visible("vYield")
+		in.traceOp("vYield")
 		return nil
 	}
 	rtIntrinsics["vLog"] = func(in *Interp, c *frame, fn *ssa.Function, a []Value) Value {
